@@ -216,20 +216,26 @@ pub fn multiset_bits(n: usize, m: usize, w: usize) {
 }
 
 /// C15: try_from_iter accepts exactly the non-decreasing sequences; universe = last + 1.
-pub fn try_from_iter(m: usize) {
+/// The last value is the concrete `last` (it determines the universe, hence allocation sizes);
+/// the other m-1 values are symbolic below 40 (so they may also exceed it or be out of order).
+pub fn try_from_iter(m: usize, last: usize, w: usize) {
     let mut vals = [0usize; MP];
     let mut k = 0; let mut sorted = true;
-    while k < m { vals[k] = sym::usize(); sym::assume(vals[k] < 40); if k > 0 && vals[k] < vals[k - 1] { sorted = false; } k += 1; }
-    // the width the rule picks depends on the (symbolic) universe; all w >= 1 are admissible and
-    // the instance fixes w = 1, which the rule yields whenever m >= universe * ln2 / 2^1.5
-    set_width(1);
+    while k < m {
+        vals[k] = if k + 1 == m { last } else { let x = sym::usize(); sym::assume(x < 40); x };
+        if k > 0 && vals[k] < vals[k - 1] { sorted = false; }
+        k += 1;
+    }
+    set_width(w);
+    let universe = if m == 0 { 0 } else { last + 1 };
+    set_scan(m + (universe >> w) + (if universe & ((1usize << w) - 1) != 0 { 1 } else { 0 }));
     let res = SparseVector::try_from_iter(vals[..m].iter().copied());
     match res {
         Err(_) => assert!(!sorted),
         Ok(v) => {
             assert!(sorted);
             assert!(v.count_ones() == m);
-            assert!(v.len() == if m == 0 { 0 } else { vals[m - 1] + 1 });
+            assert!(v.len() == universe);
             let i = sym::usize();
             match v.select(i) { None => assert!(i >= m), Some(p) => assert!(p == vals[i]) }
         }
